@@ -142,6 +142,8 @@ func (gopt *GetOpt) HelpCommand(name string, fns ...ModifyFn) {
 			Parent:          parent,
 			Level:           parent.Level + 1,
 			Suggestions:     suggestions,
+			unknownMode:     parent.unknownMode,
+			requireOrder:    parent.requireOrder,
 		}
 		cmd.programTree = command
 		parent.AddChildCommand(name, command)
